@@ -263,7 +263,7 @@ class Mutant:
         self.rule = rule
         self.qualname = qualname
         self.count = count
-        self.kind = kind  # "break": rule must fire; "repair": finding must vanish
+        self.kind = kind  # "break": rule must fire; "repair": finding must vanish; "silent": behaviour-preserving rewrite, nothing may fire
 
     def build(self, ctx):
         text = ctx.src(self.rel).text
@@ -293,7 +293,11 @@ def _mutant_job(args):
         except AnalysisError as e:
             # a mutant that destroys an anchor is detected as analysis error:
             # counts as caught only for kind 'break' (the run would not pass)
+            if m.kind == "silent":
+                return (m_idx, "silent-alarm", ["ANALYSIS-ERROR " + str(e)])
             return (m_idx, "caught-as-analysis-error" if m.kind == "break" else "error", str(e))
+        if m.kind == "silent":
+            return (m_idx, "hits", [f.key() for f in ctx.findings])
         hits = [
             f
             for f in ctx.findings
@@ -328,6 +332,8 @@ def self_validate(prop, mod, base_ctx, jobs, seed):
     unbuildable = []
     missed = []
     names = []
+    silent_ok = []
+    false_alarms = []
     for idx, status, payload in results:
         m = muts[idx]
         if status == "unbuildable":
@@ -335,6 +341,14 @@ def self_validate(prop, mod, base_ctx, jobs, seed):
             continue
         if status == "error":
             raise AnalysisError(f"self validation of {m.name} crashed: {payload}")
+        if m.kind == "silent":
+            # behaviour-preserving rewrite: no rule may raise a new alarm
+            new = payload if status == "silent-alarm" else [k for k in payload if tuple(k) not in base_keys]
+            if new:
+                false_alarms.append(f"{m.name}: {new[0]}")
+            else:
+                silent_ok.append(m.name)
+            continue
         if m.kind == "break":
             if status == "caught-as-analysis-error":
                 caught += 1
@@ -360,6 +374,10 @@ def self_validate(prop, mod, base_ctx, jobs, seed):
                 unbuildable.append(m.name + " (already repaired)")
             else:
                 missed.append(m.name)
+    if false_alarms:
+        raise AnalysisError(
+            "behaviour-preserving variants raised an alarm (checker defect): " + "; ".join(false_alarms)
+        )
     if missed:
         raise AnalysisError(
             "seeded faults not detected by the checker (checker defect): "
@@ -367,6 +385,8 @@ def self_validate(prop, mod, base_ctx, jobs, seed):
         )
     return {
         "variants": len(muts),
+        "breaking_variants": len([m for m in muts if m.kind != "silent"]),
+        "behaviour_preserving_variants_silent": silent_ok,
         "caught": caught,
         "unbuildable": len(unbuildable),
         "unbuildable_names": unbuildable,
@@ -505,8 +525,9 @@ def check(prop, tier="quick", jobs=1, seed=0):
         f"{prop} {tier}: {nob} obligations, {nob - len(ctx.findings)} discharged, "
         f"{len(seen_known)} known findings, {len(violations)} violations, "
         f"{len(ctx.files)} files, {wall:.2f}s"
-        + (f", self-validation {selfval['caught']}/{selfval['variants']} seeded faults caught"
-           f" ({selfval['unbuildable']} not buildable)" if selfval else "")
+        + (f", self-validation {selfval['caught']}/{selfval.get('breaking_variants', selfval['variants'])} seeded faults caught"
+           f" ({selfval['unbuildable']} not buildable)"
+           f", {len(selfval.get('behaviour_preserving_variants_silent', []))} behaviour-preserving rewrites silent" if selfval else "")
     )
     return rc
 
